@@ -411,6 +411,23 @@ def _function_hashes(names):
     return out
 
 
+def _missing_internals(prop):
+    import glob
+    import re
+    try:
+        with open(os.path.join(VERIF, 'vf', 'internals.json')) as f:
+            wanted = json.load(f).get(prop, [])
+    except OSError:
+        return []
+    repo = os.environ.get('VERIF_REPO', '/repo')
+    src = ''
+    for fn in glob.glob(os.path.join(repo, 'txdbus', '*.py')):
+        with open(fn, errors='replace') as f:
+            src += f.read()
+    have = set(re.findall(r'\b_[A-Za-z][A-Za-z0-9_]*\b', src))
+    return [n for n in wanted if n not in have]
+
+
 def main(argv=None):
     ap = argparse.ArgumentParser()
     ap.add_argument('prop')
@@ -425,6 +442,14 @@ def main(argv=None):
     seed = int(os.environ.get('VERIF_SEED', '0') or 0)
     _setup_paths()
     t0 = time.time()
+    missing = _missing_internals(prop)
+    if missing:
+        # The harnesses drive the real classes through these private names (serial counter, framing
+        # buffer, pending-call table ...).  On a tree that no longer has them the harness would talk
+        # past the code, so no verdict is given: this is a harness error, never a violation.
+        print('HARNESS-ERROR property=%s internal names the harness drives are not in this tree: %s '
+              '(vf/internals.json); no verdict' % (prop, ', '.join(missing)))
+        return 3
     mod = importlib.import_module('vf.props.' + prop.lower())
     obs: List[Ob] = mod.obligations(args.tier)
     if args.only:
